@@ -894,6 +894,18 @@ impl RootRef<'_> {
             description: "file creation path has trailing slash".into(),
         })?;
 
+        // "." and ".." cannot be created (the kernel answers O_CREAT on them
+        // with EISDIR). We have to check this ourselves because O_PATH makes
+        // the kernel ignore O_CREAT, and opening ".." in the directory we
+        // resolved would hand out its parent -- for the root itself that is a
+        // directory outside of the root.
+        if matches!(name.as_os_str().as_bytes(), b"." | b"..") {
+            Err(ErrorImpl::OsError {
+                operation: "pathrs create_file".into(),
+                source: IOError::from_raw_os_error(libc::EISDIR),
+            })?
+        }
+
         // XXX: openat2(2) supports doing O_CREAT on trailing symlinks without
         // O_NOFOLLOW. We might want to expose that here, though because it
         // can't be done with the emulated backend that might be a bad idea.
